@@ -311,10 +311,26 @@ def observe_mutate(sc, _box=None):
                 else:
                     handles.pop(op[1], None)
                     fin("none", [], None, False)
+            elif k == "h.parent":
+                m = handles.get(op[2])
+                if m is None:
+                    fin("nohandle", [], None, False)
+                else:
+                    mp = m.parent            # a Match around the same TraverserMatch object every time
+                    if mp is not None and mp.parent is not None:
+                        handles[op[1]] = mp
+                        fin("h", [mp.path_as_str], None, False)
+                    else:
+                        handles.pop(op[1], None)
+                        fin("none", [], None, False)
             elif k.startswith("h."):
                 m = handles.get(op[1])
                 if m is None:
                     fin("nohandle", [], None, False)
+                elif k in ("h.assign", "h.del", "h.pop") and isinstance(m.data_name, int) and isinstance(m.parent.data, dict):
+                    # the container was replaced (through the parent Match) by a dict while this match names a list
+                    # index: Python would create / look up an int key, which no JSON document has
+                    fin("skip", [], None, False)
                 elif k == "h.assign":
                     m.data = val(op[2])
                     fin("ok", [], None, False)
@@ -367,6 +383,9 @@ PREDS = {
     "all": lambda x: True,
     "is_num": lambda x: isinstance(x, (int, float)) and not isinstance(x, bool),
     "small": lambda x: isinstance(x, (int, float)) and not isinstance(x, bool) and x < 2,
+    "is_bool": lambda x: isinstance(x, bool),
+    "is_int": lambda x: isinstance(x, int) and not isinstance(x, bool),
+    "is_float": lambda x: isinstance(x, float),
 }
 
 
@@ -437,6 +456,14 @@ def observe_descr_op(env, doc, op, fin, views, iters):
     k = op[0]
     if k == "d.get":
         chain, getter, conv = op[1], op[2], op[3]
+        if getter in ("itc", "itx"):
+            # iterator-typed attribute of a custom (non-Document) element type, without / with a converter
+            kw = dict(to_wrapped_value=Box) if getter == "itx" else {}
+            cls = env.build(chain, lambda e: attr_iter_typed(int, e, **kw) if e is not None else attr_iter_typed(int, **kw))
+            holder = env.holder(cls, doc, chain)
+            v = getattr(holder, chain[-1][0])
+            fin("vals", [], [_unbox(x) for x in v], many=True)
+            return True
         g = {"get": get, "find": find, "get_match": get_match}[getter]
         cls = env.build(chain, lambda e: attr(e, getter=g, **_conv_kwargs(conv)) if e is not None else attr(getter=g, **_conv_kwargs(conv)))
         holder = env.holder(cls, doc, chain)
@@ -459,6 +486,9 @@ def observe_descr_op(env, doc, op, fin, views, iters):
         if kind == "iter":
             inner = type("El", (Document,), {})
             cls = env.build(chain, lambda e: attr_iter_typed(inner, e) if e is not None else attr_iter_typed(inner))
+        elif kind in ("iterc", "iterx"):
+            kw = dict(to_wrapped_value=Box) if kind == "iterx" else {}
+            cls = env.build(chain, lambda e: attr_iter_typed(int, e, **kw) if e is not None else attr_iter_typed(int, **kw))
         else:
             cls = env.build(chain, lambda e: attr(e, setter=s, **_conv_kwargs(conv)) if e is not None else attr(setter=s, **_conv_kwargs(conv)))
         value = fin.val(vs)
